@@ -256,6 +256,44 @@ def run(ck: Check):
             step = next(i for i, (a, b_) in enumerate(zip(r1, r2)) if a != b_)
             ck.violation(dict(clause="reset-behaviour", detector="ECDDWT", scenario="small-lambda"),
                          dict(what="after reset() ECDD-WT's flags differ from those of a newly constructed detector", config=kw, prefix=pre, suffix=suf[: step + 1], step=step, after_reset=r1[step], fresh=r2[step]))
+    # reset() INSIDE the warning zone (warning up, drift not): the flags must read as new at once, not from the next update
+    # on (own generator; per detector the draws continue until a stream with such a step is found)
+    wrng = _random.Random(70707)
+    for det in ALL:
+        if isinstance(det, KSWINDet):
+            continue
+        want = 2 if not thorough else 6
+        found = 0
+        for _ in range(40):
+            if found >= want:
+                break
+            cfg = det.gen_cfg(wrng)
+            xs = gen_ops(wrng, det, cfg, 120 if det.name != "BOCD" else 30, resets=False)
+            out, exc, _d = run_impl(det, cfg, xs)
+            k = next((i + 1 for i, o in enumerate(out) if o[1] and not o[0]), None)
+            if exc is not None or k is None:
+                continue
+            found += 1
+            suf = gen_ops(wrng, det, cfg, 15, resets=False)
+            ops = xs[:k] + ["R"] + suf
+            out2, exc2, _d = run_impl(det, cfg, ops)
+            if exc2 is not None:
+                ck.violation(dict(clause="raises", detector=det.name, error=type(exc2).__name__, scenario="reset-in-warning-zone"), dict(detector=det.name, config=cfg, ops=ops[: len(out2) + 1], error=repr(exc2)))
+                continue
+            f = det.make(cfg)
+            fresh0 = det.observe(f)
+            fresh, _e, _d = run_impl(det, cfg, suf, d=f)
+            ck.case(dict(detector=det.name, config=cfg, kind="reset-in-warning-zone", prefix_len=k), nontrivial=True, key=repr(("warnzone", det.name, cfg, xs[:k], suf)))
+            ck.count("reset_in_warning_zone_cases")
+            d0 = first_diff(list(out2[k]), list(fresh0))
+            if d0 is not None:
+                ck.violation(dict(clause="reset-state", detector=det.name, scenario="reset-in-warning-zone"),
+                             dict(what="state right after a reset() made while the warning flag was up differs from a new instance", detector=det.name, config=cfg, prefix=xs[:k], after_reset=out2[k], fresh=fresh0, diff=str(d0)))
+                continue
+            dd = compare_traces(out2[k + 1 :], fresh)
+            if dd is not None:
+                ck.violation(dict(clause="reset-behaviour", detector=det.name, scenario="reset-in-warning-zone"),
+                             dict(what="outputs after a reset() made while the warning flag was up differ from a new instance", detector=det.name, config=cfg, prefix=xs[:k], suffix=suf[: dd[0] + 1], step=dd[0], diff=dd[1]))
     # model correspondence on the same histories
     models = run_models("C02", corr)
     from detectors import corr_compare
